@@ -1236,4 +1236,55 @@ theorem maybeInsSep_keeps_pre (lines : List Line) (ln col : Nat) (space : Bool) 
   · rw [h]; exact key _ _ _ hl
   · rw [h]; exact key _ _ _ (by have := sk.hi; omega)
 
+/-! ## delimiting a naked tuple -/
+
+theorem insLines_length (lines : List Line) (l c : Nat) (s : Line) : (insLines lines l c s).length = lines.length := by
+  unfold insLines; simp
+
+/-- the flat source after inserting `s` at `(l, c)` -/
+theorem insLines_flat (lines : List Line) (l c : Nat) (s : Line) (hl : l < lines.length)
+    (hc : c ≤ (lineAt lines l).length) :
+    Pfst.Text.flat (insLines lines l c s)
+      = (Pfst.Text.flat lines).take (Pfst.Text.off lines l c) ++ s ++ (Pfst.Text.flat lines).drop (Pfst.Text.off lines l c) := by
+  have hv : Pfst.Text.ValidSpan lines l c l c := ⟨Nat.le_refl _, hl, hc, hc, Or.inr ⟨rfl, Nat.le_refl _⟩⟩
+  unfold insLines
+  rw [← putSrc_ins, Pfst.Text.putSrc_flat lines [s] l c l c hv (by simp)]
+  simp [Pfst.Text.flat, Pfst.Text.flatTail]
+
+/-- **`_delimit_node` on a node that is not the root** (`_fix_Tuple` on a naked tuple that needs parentheses): the flat
+source gains exactly the opening delimiter at the start of the node and the closing one at its end; the text before,
+between and after is untouched. -/
+theorem delimitNode_flat (lines : List Line) (l c eL eC : Nat) (lc : Option (Nat × Nat)) (ld rd : Char)
+    (hend : eL < lines.length) (hord : Pfst.Text.le2 l c eL eC) (hc : c ≤ (lineAt lines l).length)
+    (hec : eC ≤ (lineAt lines eL).length) :
+    Pfst.Text.flat (delimitNode lines ⟨l, c, eL, eC⟩ false lc ld rd)
+      = (Pfst.Text.flat lines).take (Pfst.Text.off lines l c) ++ [ld] ++ Pfst.Text.getFlat lines l c eL eC ++ [rd]
+        ++ (Pfst.Text.flat lines).drop (Pfst.Text.off lines eL eC) := by
+  have hl : l < lines.length := by have := Pfst.Text.le2_line hord; omega
+  have hun : delimitNode lines ⟨l, c, eL, eC⟩ false lc ld rd = insLines (insLines lines eL eC [rd]) l c [ld] := by
+    unfold delimitNode
+    simp only [Bool.false_eq_true, ↓reduceIte, Bool.not_false, putSrc_ins]
+    rfl
+  rw [hun]
+  have hv : Pfst.Text.ValidSpan lines eL eC eL eC := ⟨Nat.le_refl _, hend, hec, hec, Or.inr ⟨rfl, Nat.le_refl _⟩⟩
+  have hoff : Pfst.Text.off (insLines lines eL eC [rd]) l c = Pfst.Text.off lines l c := by
+    unfold insLines; rw [← putSrc_ins]
+    exact Pfst.Text.off_putSrc_before lines [[rd]] eL eC eL eC hv l c hord
+  have hc1 : c ≤ (lineAt (insLines lines eL eC [rd]) l).length := by
+    rw [lineAt_insLines hend]
+    by_cases h : l = eL
+    · subst h; simp only [↓reduceIte, insLine_length]; omega
+    · simp only [h, ↓reduceIte]; exact hc
+  rw [insLines_flat _ l c [ld] (by rw [insLines_length]; exact hl) hc1, hoff, insLines_flat lines eL eC [rd] hend hec]
+  have hke : Pfst.Text.off lines l c ≤ Pfst.Text.off lines eL eC := Pfst.Text.off_mono lines l c eL eC hord hec
+  have hel : Pfst.Text.off lines eL eC ≤ (Pfst.Text.flat lines).length := Pfst.Text.off_le_length lines eL eC hend
+  unfold Pfst.Text.getFlat
+  generalize Pfst.Text.flat lines = F at *
+  generalize Pfst.Text.off lines l c = k at *
+  generalize Pfst.Text.off lines eL eC = e at *
+  have hk : k ≤ (F.take e).length := by simp; omega
+  rw [List.append_assoc (F.take e), List.take_append_of_le_length hk, List.drop_append_of_le_length hk,
+    List.take_take, Nat.min_eq_left hke, List.drop_take]
+  simp
+
 end Pfst.Sep
